@@ -41,6 +41,7 @@ pub fn prim_value(vr: &[u8; 2], p: &Prim) -> PrimitiveValue {
                 PrimitiveValue::Strs(b.split(|c| *c == b'\\').map(latin1_string).collect())
             }
         }
+        Prim::Raw(b) => PrimitiveValue::U8(b.iter().cloned().collect()),
         Prim::Bytes(b) => {
             if b.is_empty() {
                 PrimitiveValue::Empty
